@@ -29,7 +29,8 @@ SW = "src/food_system/seaweed.py"
 MD = "src/food_system/meat_and_dairy.py"
 FB = "src/food_system/feed_and_biofuels.py"
 SC = "src/scenarios/scenarios.py"
-HORIZONS = (48, 84, 120)
+import os as _os
+HORIZONS = (48, 60, 72, 84, 96, 108, 120) if _os.environ.get("VERIF_TIER") == "thorough" else (48, 84, 120)
 
 
 def seq(x, n):
